@@ -8,7 +8,7 @@ var tcpAssume = []string{
 
 var props = map[string]PropDef{
 	"C10": {Level: "exploration", QuickS: 45, ThoroughS: 600,
-		Units:    []Unit{{Name: "tcpasm-c10", Pkg: "./props/tcpasm", Sim: "c10", Share: 1}},
+		Units:    []Unit{{Name: "tcpasm-c10", Pkg: "./props/tcpasm", Sim: "c10", Share: 0.85}, {Name: "tcpasm-c10-clock", Pkg: "./props/tcpasm", Sim: "c10clock", Share: 0.15}},
 		Rule:     "one evaluation = one simulated run (seeded plan: 1-3 connections, segmentation, ISN class, network faults, flush timers, page limits; then every event fed to the real assembler with the delivery model checked after each); non-trivial = at least one fault fired (drop, duplicate, reorder delay, burst hold-back, overlapping retransmission, delayed SYN, flush timer); distinct = distinct event-log fingerprints among non-trivial runs",
 		RealStub: "real: tcpassembly.Assembler, StreamPool, page cache; stub: TCP senders, network, clock, Stream/StreamFactory (the oracle)",
 		Assume:   tcpAssume},
@@ -17,7 +17,7 @@ var props = map[string]PropDef{
 // probeNames lists, per sim, the rare-condition probes whose count is watched.
 func init() {
 	props["C09"] = PropDef{Level: "exploration", QuickS: 45, ThoroughS: 600,
-		Units:    []Unit{{Name: "reasm-c09", Pkg: "./props/reasm", Sim: "c09", Share: 1}},
+		Units:    []Unit{{Name: "reasm-c09", Pkg: "./props/reasm", Sim: "c09", Share: 0.85}, {Name: "reasm-c09-clock", Pkg: "./props/reasm", Sim: "c09clock", Share: 0.15}},
 		Rule:     props["C10"].Rule + "; additionally the stream stub's KeepFrom policy (never / all / random offset / nothing / only on last) is a per-run knob and 'stream_keeps_bytes' counts as a fault",
 		RealStub: "real: reassembly.Assembler, StreamPool, page cache, ScatterGather; stub: TCP senders, network, clock, Stream/StreamFactory (the oracle)",
 		Assume:   tcpAssume}
